@@ -283,6 +283,12 @@ func runC09(c *Ctx) {
 				default:
 					ok, why = false, "store to field "+key+" through a pointer that is neither a per-request object nor freshly allocated here"
 				}
+				if !ok && isNewType(immT) {
+					// a structure the baseline does not know: whether its instances are made per request (a cursor over the
+					// records of one call) or shared is not known to the rules — unrecognised, not a verdict
+					c.obRI("R09.1", st, "write-"+key, false, "request-reachable code writes only per-request objects or objects it has just allocated — never a field of a shared structure", why+" ("+typeFullName(immT)+" is a type unknown to the baseline: whether its instances are shared between requests is not decided)")
+					continue
+				}
 				c.obD("R09.1", st, "write-"+key, ok, "request-reachable code writes only per-request objects or objects it has just allocated — never a field of a shared structure", why)
 			case *ssa.Slice:
 				// (f) x[:0] of a slice the function did not make, then appended to: the "filter in place" idiom writes
